@@ -129,3 +129,318 @@ Proof.
   - apply Qle_bool_iff. rewrite <- EL, <- Hm. exact Hlo.
   - apply Qle_bool_iff. rewrite <- EH, <- Hm. exact Hhi.
 Qed.
+
+(* =================================================================================================== *)
+(** * The general link: whatever [corr_b] accepts, [prop_b] accepts                                     *)
+(* =================================================================================================== *)
+From Coq Require Import Qabs Permutation.
+Local Open Scope Q_scope.
+
+Definition tolq (sc : Q) : Q := tol_abs + tol_rel * Qabs' sc.
+
+Lemma Qabs'_Qabs : forall x : Q, Qabs' x == Qabs x.
+Proof.
+  intro x. unfold Qabs'. destruct (Qle_bool 0 x) eqn:E.
+  - apply Qle_bool_iff in E. symmetry. apply Qabs_pos. exact E.
+  - assert (H : ~ 0 <= x) by (intro H; apply Qle_bool_iff in H; congruence).
+    apply Qnot_le_lt, Qlt_le_weak in H. symmetry. apply Qabs_neg. exact H.
+Qed.
+
+Lemma near_iff : forall sc a b, near sc a b = true <-> Qabs (a - b) <= tolq sc.
+Proof. intros. unfold near, tolq. rewrite Qle_bool_iff, Qabs'_Qabs. reflexivity. Qed.
+
+Lemma near2_iff : forall sc a b, near2 sc a b = true <-> Qabs (a - b) <= (2 # 1) * tolq sc.
+Proof. intros. unfold near2, tolq. rewrite Qle_bool_iff, Qabs'_Qabs. reflexivity. Qed.
+
+Lemma near_morph : forall sc a a' b b', a == a' -> b == b' -> near sc a b = true -> near sc a' b' = true.
+Proof. intros sc a a' b b' Ha Hb. rewrite !near_iff. rewrite Ha, Hb. exact (fun H => H). Qed.
+
+(** two values within the tolerance of the same value are within twice the tolerance of each other *)
+Lemma near_tri : forall sc x a b, near sc x a = true -> near sc x b = true -> near2 sc a b = true.
+Proof.
+  intros sc x a b. rewrite !near_iff, near2_iff. intros Ha Hb.
+  setoid_replace (a - b) with ((a - x) + (x - b)) by ring.
+  eapply Qle_trans; [apply Qabs_triangle|].
+  rewrite (Qabs_Qminus a x).
+  setoid_replace ((2 # 1) * tolq sc) with (tolq sc + tolq sc) by ring.
+  apply Qplus_le_compat; assumption.
+Qed.
+
+Lemma Qeq_bool_sym' : forall a b, Qeq_bool a b = true -> Qeq_bool b a = true.
+Proof. intros a b H. apply Qeq_bool_iff. symmetry. apply Qeq_bool_iff. exact H. Qed.
+
+Lemma Qeq_bool_trans' : forall x a b, Qeq_bool x a = true -> Qeq_bool x b = true -> Qeq_bool a b = true.
+Proof.
+  intros x a b H1 H2. apply Qeq_bool_iff. apply Qeq_bool_iff in H1, H2. rewrite <- H1, <- H2. reflexivity.
+Qed.
+
+Ltac split_andb H :=
+  repeat match type of H with
+         | (_ && _ = true) =>
+             let H1 := fresh "A" in let H2 := fresh "A" in
+             apply andb_true_iff in H; destruct H as [H1 H2]; split_andb H1
+         end.
+
+(* ---- one observation ------------------------------------------------------------------------------- *)
+
+(** an observation that agrees with the model's summary of the non-empty dataset [l] (and
+    satisfies the exact facts [obs_inv]) passes the whole-dataset oracle, at the same tolerance *)
+Lemma obs_sound : forall e sc1 sc2 l o, l <> [] ->
+  obs_matches_gen e sc1 sc2 (ds_run l) o = true -> obs_inv o = true ->
+  batch_ok_gen e sc1 sc2 l o = true.
+Proof.
+  intros e sc1 sc2 l o Hne H Hinv.
+  destruct (run_equals_batch l) as (Hc & Hs & Hm & HM & Hv).
+  destruct (run_range l Hne) as (Hact & Hmax & Hmin).
+  pose proof (is_max_unique l l _ _ (Permutation_refl l) Hmax (lmax_is_max l Hne)) as EH.
+  pose proof (is_min_unique l l _ _ (Permutation_refl l) Hmin (lmin_is_min l Hne)) as EL.
+  unfold obs_matches_gen in H. unfold range_span in H.
+  unfold b_count, b_sum, b_var, b_M, b_mean in *.
+  rewrite Hc, Hs, Hm, HM, Hv, EH, EL, Hact in H.
+  unfold obs_inv in Hinv.
+  apply andb_true_iff in H. destruct H as [H H10].
+  apply andb_true_iff in H. destruct H as [H H9].
+  apply andb_true_iff in H. destruct H as [H H8].
+  apply andb_true_iff in H. destruct H as [H H7].
+  apply andb_true_iff in H. destruct H as [H H6].
+  apply andb_true_iff in H. destruct H as [H H5].
+  apply andb_true_iff in H. destruct H as [H H4].
+  apply andb_true_iff in H. destruct H as [H H3].
+  apply andb_true_iff in H. destruct H as [H1 H2].
+  apply andb_true_iff in Hinv. destruct Hinv as [Hinv I4].
+  apply andb_true_iff in Hinv. destruct Hinv as [Hinv I3].
+  apply andb_true_iff in Hinv. destruct Hinv as [I1 I2].
+  assert (Ho : o_act o = true) by (destruct (o_act o); [reflexivity|discriminate H4]).
+  unfold batch_ok_gen.
+  rewrite (Qeq_bool_sym' _ _ H1), H2, H3, H8, H9, I1, H10, I2, Ho,
+          (Qeq_bool_sym' _ _ H5), (Qeq_bool_sym' _ _ H6), H7, I3, I4.
+  reflexivity.
+Qed.
+
+(* ---- sequences --------------------------------------------------------------------------------------- *)
+
+Lemma run_sound : forall sc1 sc2 rest seen os,
+  corr_run sc1 sc2 (ds_run (map qc seen)) rest os = true ->
+  prop_run sc1 sc2 (map qc seen) (map qc rest) os = true.
+Proof.
+  intros sc1 sc2. induction rest as [|v rest IH]; intros seen os H.
+  - destruct os; [reflexivity|discriminate H].
+  - destruct os as [|o os]; [discriminate H|].
+    cbn [corr_run] in H. cbn [map prop_run].
+    apply andb_true_iff in H. destruct H as [H Hrest].
+    apply andb_true_iff in H. destruct H as [Hm Hinv].
+    assert (E : ds_update (ds_run (map qc seen)) (qc v) = ds_run (map qc (seen ++ [v]))).
+    { rewrite map_app. cbn [map]. symmetry. apply ds_run_snoc. }
+    rewrite E in Hm, Hrest.
+    assert (E2 : map qc seen ++ [qc v] = map qc (seen ++ [v])) by (rewrite map_app; reflexivity).
+    rewrite E2. apply andb_true_intro. split.
+    + apply obs_sound; [|exact Hm|exact Hinv].
+      rewrite <- E2. intro Z. apply app_eq_nil in Z. destruct Z as [_ Z]. discriminate Z.
+    + apply IH. exact Hrest.
+Qed.
+
+Lemma default_sound_gen : forall e sc1 sc2 o,
+  obs_matches_gen e sc1 sc2 ds_default o = true -> empty_ok_gen e sc1 o = true.
+Proof.
+  intros e sc1 sc2 o H. unfold obs_matches_gen in H.
+  cbn [ds_default disp_default range_default s_count s_sum s_mean s_disp d_range d_m d_var
+       r_act r_high r_low] in H.
+  apply andb_true_iff in H. destruct H as [H _]. apply andb_true_iff in H. destruct H as [H _].
+  apply andb_true_iff in H. destruct H as [H _]. apply andb_true_iff in H. destruct H as [H _].
+  apply andb_true_iff in H. destruct H as [H _]. apply andb_true_iff in H. destruct H as [H _].
+  apply andb_true_iff in H. destruct H as [H H4]. apply andb_true_iff in H. destruct H as [H _].
+  apply andb_true_iff in H. destruct H as [H1 H2].
+  assert (Ho : negb (o_act o) = true) by (destruct (o_act o); [discriminate H4|reflexivity]).
+  unfold empty_ok_gen. change (uq 0%Qc) with 0 in H1, H2. rewrite H1, H2, Ho. reflexivity.
+Qed.
+
+Lemma default_sound : forall sc1 sc2 o, obs_matches sc1 sc2 ds_default o = true -> empty_ok o = true.
+Proof.
+  intros sc1 sc2 o H. apply default_sound_gen in H. unfold empty_ok.
+  unfold empty_ok_gen, eq_or_near in *. exact H.
+Qed.
+
+(* ---- permutations --------------------------------------------------------------------------------------- *)
+
+Lemma qc_eq : forall x y, Qeq_bool x y = true -> qc x = qc y.
+Proof.
+  intros x y H. apply Qeq_bool_iff in H. unfold qc. apply Qc_is_canon.
+  cbn [this Q2Qc]. rewrite !Qred_correct. exact H.
+Qed.
+
+Lemma remove_first_perm : forall x l l',
+  remove_first x l = Some l' -> Permutation (map qc l) (qc x :: map qc l').
+Proof.
+  intros x l. induction l as [|y t IH]; intros l' H; [discriminate H|].
+  cbn [remove_first] in H. destruct (Qeq_bool x y) eqn:E.
+  - injection H as <-. cbn [map]. rewrite (qc_eq _ _ E). apply Permutation_refl.
+  - destruct (remove_first x t) as [t'|]; [|discriminate H]. cbn in H. injection H as <-.
+    cbn [map]. eapply perm_trans; [apply perm_skip; apply IH; reflexivity|apply perm_swap].
+Qed.
+
+Lemma is_perm_sound : forall l1 l2, is_perm_b l1 l2 = true -> Permutation (map qc l1) (map qc l2).
+Proof.
+  induction l1 as [|x t IH]; intros l2 H.
+  - destruct l2; [apply perm_nil|discriminate H].
+  - cbn [is_perm_b] in H. destruct (remove_first x l2) as [l2'|] eqn:E; [|discriminate H].
+    cbn [map]. eapply perm_trans; [apply perm_skip; apply IH; exact H|].
+    apply Permutation_sym. apply remove_first_perm. exact E.
+Qed.
+
+Lemma same_sound : forall sc1 sc2 S a b,
+  obs_matches sc1 sc2 S a = true -> obs_matches sc1 sc2 S b = true ->
+  same_summary sc1 sc2 (Qabs' sc2 + Qabs' (uq (d_var (s_disp S)))) a b = true.
+Proof.
+  intros sc1 sc2 S a b Ha Hb. unfold obs_matches, obs_matches_gen, eq_or_near, sd_ok in Ha, Hb.
+  apply andb_true_iff in Ha. destruct Ha as [Ha A10].
+  apply andb_true_iff in Ha. destruct Ha as [Ha A9].
+  apply andb_true_iff in Ha. destruct Ha as [Ha A8].
+  apply andb_true_iff in Ha. destruct Ha as [Ha A7].
+  apply andb_true_iff in Ha. destruct Ha as [Ha A6].
+  apply andb_true_iff in Ha. destruct Ha as [Ha A5].
+  apply andb_true_iff in Ha. destruct Ha as [Ha A4].
+  apply andb_true_iff in Ha. destruct Ha as [Ha A3].
+  apply andb_true_iff in Ha. destruct Ha as [A1 A2].
+  apply andb_true_iff in A10. destruct A10 as [_ A10].
+  apply andb_true_iff in Hb. destruct Hb as [Hb B10].
+  apply andb_true_iff in Hb. destruct Hb as [Hb B9].
+  apply andb_true_iff in Hb. destruct Hb as [Hb B8].
+  apply andb_true_iff in Hb. destruct Hb as [Hb B7].
+  apply andb_true_iff in Hb. destruct Hb as [Hb B6].
+  apply andb_true_iff in Hb. destruct Hb as [Hb B5].
+  apply andb_true_iff in Hb. destruct Hb as [Hb B4].
+  apply andb_true_iff in Hb. destruct Hb as [Hb B3].
+  apply andb_true_iff in Hb. destruct Hb as [B1 B2].
+  apply andb_true_iff in B10. destruct B10 as [_ B10].
+  assert (Eact : eqb (o_act a) (o_act b) = true).
+  { apply eqb_prop in A4, B4. rewrite <- A4, <- B4. apply eqb_reflx. }
+  unfold same_summary.
+  rewrite (Qeq_bool_trans' _ _ _ A1 B1), (Qeq_bool_trans' _ _ _ A2 B2), Eact,
+          (Qeq_bool_trans' _ _ _ A5 B5), (Qeq_bool_trans' _ _ _ A6 B6),
+          (near_tri _ _ _ _ A3 B3), (near_tri _ _ _ _ A8 B8), (near_tri _ _ _ _ A9 B9),
+          (near_tri _ _ _ _ A10 B10).
+  reflexivity.
+Qed.
+
+(* ---- Q <-> Qc for the single-function cases ------------------------------------------------------------------ *)
+
+Lemma uq_qc : forall x, uq (qc x) == x.
+Proof. intro x. unfold uq, qc. cbn [this Q2Qc]. apply Qred_correct. Qed.
+
+Lemma uq_plus : forall a b : Qc, uq (a + b)%Qc == uq a + uq b.
+Proof. intros. unfold uq, Qcplus. cbn [this Q2Qc]. apply Qred_correct. Qed.
+Lemma uq_minus : forall a b : Qc, uq (a - b)%Qc == uq a - uq b.
+Proof.
+  intros. unfold uq, Qcminus, Qcplus, Qcopp. cbn [this Q2Qc]. rewrite !Qred_correct. reflexivity.
+Qed.
+Lemma uq_mult : forall a b : Qc, uq (a * b)%Qc == uq a * uq b.
+Proof. intros. unfold uq, Qcmult. cbn [this Q2Qc]. apply Qred_correct. Qed.
+Lemma uq_div : forall a b : Qc, uq (a / b)%Qc == uq a / uq b.
+Proof.
+  intros. unfold uq, Qcdiv, Qcmult, Qcinv. cbn [this Q2Qc]. rewrite !Qred_correct. reflexivity.
+Qed.
+
+Lemma Qcltb_qc : forall a b, Qcltb (qc a) (qc b) = negb (Qle_bool b a).
+Proof.
+  intros a b. unfold Qcltb, qc. cbn [this Q2Qc]. rewrite !Qred_correct. reflexivity.
+Qed.
+
+Lemma Qle_bool_false_lt : forall a b, Qle_bool a b = false -> b < a.
+Proof.
+  intros a b H. apply Qnot_le_lt. intro L. apply Qle_bool_iff in L. congruence.
+Qed.
+
+Lemma range_sound : forall act hi lo x act' hi' lo',
+  range_matches (range_update (mkRange act (qc hi) (qc lo)) (qc x)) act' hi' lo' = true ->
+  (if act then
+     if Qle_bool lo hi then
+       act' && Qeq_bool hi' (Qmaxq hi x) && Qeq_bool lo' (if Qle_bool lo x then lo else x)
+     else true
+   else act' && Qeq_bool hi' x && Qeq_bool lo' x) = true.
+Proof.
+  intros act hi lo x act' hi' lo' H. unfold range_matches, range_update in H.
+  cbn [r_act r_high r_low] in H. destruct act; cbn [r_act r_high r_low] in H.
+  - destruct (Qle_bool lo hi); [|reflexivity].
+    rewrite !Qcltb_qc in H.
+    apply andb_true_iff in H. destruct H as [H H3]. apply andb_true_iff in H. destruct H as [H1 H2].
+    apply eqb_prop in H1. subst act'. cbn [andb].
+    apply andb_true_intro. split; apply Qeq_bool_iff.
+    + apply Qeq_bool_iff in H2. rewrite <- H2. unfold Qmaxq.
+      destruct (Qle_bool x hi) eqn:E1; cbn [negb].
+      * rewrite uq_qc. destruct (Qle_bool hi x) eqn:E2; [|reflexivity].
+        apply Qle_bool_iff in E1, E2. apply Qle_antisym; assumption.
+      * rewrite uq_qc. apply Qle_bool_false_lt, Qlt_le_weak in E1.
+        apply Qle_bool_iff in E1. rewrite E1. reflexivity.
+    + apply Qeq_bool_iff in H3. rewrite <- H3.
+      destruct (Qle_bool lo x); cbn [negb]; rewrite uq_qc; reflexivity.
+  - apply andb_true_iff in H. destruct H as [H H3]. apply andb_true_iff in H. destruct H as [H1 H2].
+    apply eqb_prop in H1. subst act'. cbn [andb].
+    apply Qeq_bool_iff in H2, H3. rewrite uq_qc in H2, H3.
+    apply andb_true_intro. split; apply Qeq_bool_iff; symmetry; assumption.
+Qed.
+
+Lemma Qle_1_nonzero : forall c, Qle_bool 1 c = true -> ~ c == 0.
+Proof.
+  intros c H E. apply Qle_bool_iff in H. rewrite E in H. revert H. unfold Qle. cbn. lia.
+Qed.
+
+Lemma mean_sound : forall pm x c r sc, Qle_bool 1 c = true ->
+  near sc (uq (calc_mean (qc pm) (qc x) (qc c))) r = true ->
+  near sc ((pm * (c - 1) + x) / c) r = true.
+Proof.
+  intros pm x c r sc Hc H. pose proof (Qle_1_nonzero c Hc) as Hnz.
+  refine (near_morph _ _ _ _ _ _ (Qeq_refl r) H).
+  unfold calc_mean. rewrite uq_plus, uq_div, uq_minus, !uq_qc. field. exact Hnz.
+Qed.
+
+Lemma popvar_sound : forall m c r sc, Qle_bool 1 c = true ->
+  near sc (uq (calc_pop_var (qc m) (qc c))) r = true -> near sc (m / c) r = true.
+Proof.
+  intros m c r sc Hc H.
+  refine (near_morph _ _ _ _ _ _ (Qeq_refl r) H).
+  unfold calc_pop_var. change 1%Qc with (qc 1). rewrite Qcltb_qc, Hc. cbn [negb].
+  rewrite uq_div, !uq_qc. reflexivity.
+Qed.
+
+(* ---- the theorem ------------------------------------------------------------------------------------------------ *)
+
+Theorem oracle_sound : forall c : case, corr_b c = true -> prop_b c = true.
+Proof.
+  intros [vals o0 os|base finals|st x res|act hi lo x act' hi' lo'|x act' hi' lo'|pm x c r|m pm x nm r|m c r] H;
+    cbn [corr_b prop_b] in *.
+  - (* CSeq *)
+    apply andb_true_iff in H. destruct H as [H0 H]. apply andb_true_intro. split.
+    + exact (default_sound _ _ _ H0).
+    + apply (run_sound _ _ vals [] os). exact H.
+  - (* CPerms *)
+    rewrite forallb_forall in H.
+    assert (HS : forall po, In po finals ->
+              Permutation (map qc base) (map qc (fst po)) /\
+              obs_matches (scale1 base) (scale2 base) (ds_run (map qc base)) (snd po) = true /\
+              obs_inv (snd po) = true).
+    { intros po Hin. specialize (H po Hin).
+      apply andb_true_iff in H. destruct H as [H Hi]. apply andb_true_iff in H. destruct H as [Hp Hm].
+      apply is_perm_sound in Hp. rewrite (run_perm _ _ Hp). auto. }
+    destruct base as [|b0 base'].
+    + apply forallb_forall. intros po Hin. destruct (HS po Hin) as (_ & Hm & _).
+      cbn [map] in Hm. change (ds_run []) with ds_default in Hm.
+      exact (default_sound _ _ _ Hm).
+    + destruct finals as [|[p0 f0] finals']; [reflexivity|].
+      apply forallb_forall. intros po Hin.
+      destruct (HS po Hin) as (_ & Hm & Hi).
+      destruct (HS (p0, f0) (or_introl eq_refl)) as (_ & Hm0 & _). cbn [snd] in Hm0.
+      apply andb_true_intro. split.
+      * apply obs_sound; [discriminate|exact Hm|exact Hi].
+      * destruct (run_equals_batch (map qc (b0 :: base'))) as (_ & _ & _ & _ & Hv).
+        rewrite <- Hv. apply same_sound; assumption.
+  - reflexivity.
+  - apply range_sound. exact H.
+  - unfold range_matches, range_init in H. cbn [r_act r_high r_low] in H.
+    apply andb_true_iff in H. destruct H as [H H3]. apply andb_true_iff in H. destruct H as [H1 H2].
+    apply eqb_prop in H1. subst act'. cbn [andb].
+    apply Qeq_bool_iff in H2, H3. rewrite uq_qc in H2, H3.
+    apply andb_true_intro. split; apply Qeq_bool_iff; symmetry; assumption.
+  - destruct (Qle_bool 1 c) eqn:Hc; [|reflexivity]. apply mean_sound; assumption.
+  - reflexivity.
+  - destruct (Qle_bool 1 c) eqn:Hc; [|reflexivity]. apply popvar_sound; assumption.
+Qed.
